@@ -332,8 +332,15 @@ def cases(rng, tier):
             c = mk(rng, tier, seq, envsel=env)
             c[0] = 6
             out.append(c)
-    # (f) the process's time zone changes while it runs (mode 5 switches TZ, the following cases
-    # of the same process keep the new zone): local dates must follow the zone of the moment
+    out.extend(tz_switch_cases(rng, tier, envs))
+    return out
+
+
+def tz_switch_cases(rng, tier, envs):
+    """(f) the process's time zone changes while it runs (mode 5 switches TZ, the following cases of the same
+    process keep the new zone; every third switch is to a zone whose daylight-saving time ends within the hour, so
+    that the local time of the record is in the REPEATED hour): local dates must follow the zone of the moment"""
+    out = []
     for env in envs:
         for k in range(6 if tier == "quick" else 30):
             for mode in (5, 1, 1):
